@@ -229,7 +229,7 @@ impl Property for C12 {
         "C12"
     }
     fn rule(&self) -> String {
-        "model-based histories: slim box-bodied robots with limits; start inside the limit box; landing / 0..4 stroke poses / parking = model FK of a generated joint-space polyline (per-joint steps small (<= 0.15 rad) => feasible, or up to 1 rad => may fail; one segment in 14 turns the tool in place (J6 only), one repeats the pose); \
+        "model-based histories: slim box-bodied robots with limits (non-wrapping windows; two sets in nine shifted so that windows reach beyond +-pi, one in nine with wrist windows J4/J6 from a little below zero to beyond +pi and the start in their lower part); start inside the limit box; landing / 0..4 stroke poses / parking = model FK of a generated joint-space polyline (per-joint steps small (<= 0.15 rad) => feasible, or up to 1 rad => may fail; one segment in 14 turns the tool in place (J6 only), one repeats the pose); \
          check steps 0.01..0.2 m / 1..20 degrees, cost limit 2..30 degrees, recursion depth 0..8, include_linear_interpolation in {true,false}, transition coefficients default or random; obstacle layouts free / box at 3 x safety distance from the tool at a path posture / box on the tool \
          at an interpolated posture or (one in four) exactly at a stroke pose; RRT step 2..8 degrees and budget 50..2000; every plan is run under rayon pools of 1, 2, 4 and 16 threads, twice each; in the second run under 2, 4 and 16 threads the harness slows down the IK calls of some strategies (selected by the sign pattern of J1/J3/J5 of their joints), so that the order in which strategies finish changes. Oracle: validity predicate over every waypoint of every returned plan. \
          Non-trivial: a successful plan with >= 1 interpolated waypoint (or, with include=false, a successful plan)."
@@ -257,14 +257,33 @@ impl Property for C12 {
         ];
         (
             planning_scene(1),
-            limit_box(),
+            // one window set in four is shifted: windows that are not centred near zero and may reach beyond +-pi
+            prop_oneof![
+                6 => limit_box().prop_map(|l| (l, false)),
+                2 => crate::props::c13::limit_box_shifted().prop_map(|l| (l, false)),
+                // wrist windows that are not symmetric about zero: J4 and J6 may turn from a little below zero up to beyond +pi, less than a full turn wide
+                // (the wrist-flipped landing solutions, half a turn from the start, are then reported a whole turn below the window by the IK)
+                1 => (limit_box(), -1.5..0.5f64, -1.5..0.5f64, 3.75..5.85f64, 3.75..5.85f64).prop_map(|(mut l, f4, f6, w4, w6)| {
+                    l.from[3] = f4;
+                    l.to[3] = f4 + w4;
+                    l.from[5] = f6;
+                    l.to[5] = f6 + w6;
+                    (l, true)
+                }),
+            ],
             prop::array::uniform6(0.2..0.8f64),
             prop::collection::vec(delta, 2..=6),
             (0.01..0.2f64, 1.0..20.0f64, 2.0..30.0f64, 0u8..9, any::<bool>()),
             (0u8..3, prop_oneof![3 => 0.0..1.0f64, 1 => -1.0..-0.01f64], 2.0..8.0f64, prop_oneof![Just(50u32), Just(500u32), Just(2000u32)]),
             prop_oneof![2 => Just(None), 1 => prop::array::uniform6(0.5..1.5f64).prop_map(Some)],
         )
-            .prop_map(|(scene, limits, start_u, deltas, (check_step_m, check_step_deg, max_cost_deg, depth, include), (obstacle, obstacle_at, rrt_step_deg, rrt_max_try), coeffs)| Case {
+            .prop_map(|(scene, (limits, wrist), mut start_u, deltas, (check_step_m, check_step_deg, max_cost_deg, depth, include), (obstacle, obstacle_at, rrt_step_deg, rrt_max_try), coeffs)| {
+                if wrist {
+                    // start in the lower part of the wrist windows
+                    start_u[3] *= 0.3;
+                    start_u[5] *= 0.3;
+                }
+                Case {
                 scene,
                 limits,
                 start_u,
@@ -280,6 +299,7 @@ impl Property for C12 {
                 rrt_max_try,
                 coeffs,
                 slow: ((start_u[0] * 251.0) as u8 | 1, (start_u[1] * 251.0) as u8 | 2),
+                }
             })
             .boxed()
     }
